@@ -12,6 +12,7 @@ import (
 	"strconv"
 	"strings"
 	"sync"
+	"time"
 
 	"p2pverif/core"
 	"p2pverif/rules"
@@ -28,6 +29,7 @@ type mutant struct {
 }
 
 func main() {
+	t0 := time.Now()
 	prop := flag.String("property", "", "property id (C01..C20)")
 	tier := flag.String("tier", "quick", "quick|thorough")
 	repo := flag.String("repo", "/repo", "repository root")
@@ -101,6 +103,7 @@ func main() {
 		os.Exit(2)
 	}
 	r := core.NewReport(p, *prop, *tier, seed)
+	r.Start = t0
 	func() {
 		defer func() {
 			if e := recover(); e != nil {
